@@ -7,18 +7,18 @@ for l in open(os.path.join(VERIF, "properties.jsonl")):
     p = json.loads(l); TITLES[p["id"]] = p["title"]
 
 LEVEL = {
- "C01": ("theorem: the getters equal the history functions last_rx (induction over arbitrary op lists of the model); observer obs_C01 = that equation evaluated on the real library after every call of sweeps over block A/B and random histories", "8/C01"),
- "C02": ("theorems: cells of all four texts after any group = spec_cells (writes_of applied with cell_after; nothing else changes), charset table = G0 reference (kernel-checked on the regenerated Gen.v), address extractors translated from the C sources and proved equal to the model's; observer obs_C02 proved of every model step and evaluated on the implementation (incl. a sweep of all 65536 data words for lasting effects)", "8/C02, 17.3"),
- "C03": ("2-safety theorem on the model (step equal for dontcare-equivalent groups); on the implementation twin instances fed dontcare-equivalent groups (hypothesis re-checked by the extracted predicate) must agree on every getter and callback for the whole continuation", "8/C03"),
- "C04": ("theorems: per field the callbacks of a call are exactly [one, with the new value] iff the getter result changed and a callback is registered (scalars, PS, PTYN, RT incl. A/B switch, AF per newly listed code); re-delivery of a group changes nothing and notifies nothing but clock time; obs_C04 proved of every model step; same observer on implementation traces whose samples are taken inside the real callbacks", "8/C04, 17.3"),
+ "C01": ("theorem: the getters equal the history functions last_rx (induction over arbitrary op lists of the model); observer obs_C01 = that equation evaluated on the real library after every call of sweeps over block A/B and random histories ; code level: rdsparser_group_parse translated from the sources = the model's group_parse (C01_code_group_parse)", "8/C01"),
+ "C02": ("theorems: cells of all four texts after any group = spec_cells (writes_of applied with cell_after; nothing else changes), charset table = G0 reference (kernel-checked on the regenerated Gen.v), address extractors translated from the C sources and proved equal to the model's; observer obs_C02 proved of every model step and evaluated on the implementation (incl. a sweep of all 65536 data words for lasting effects) ; code level: the charset table in the source = the measured graph, rdsparser_group0_parse / rdsparser_group10_parse = the model's (C02_code_*)", "8/C02, 17.3"),
+ "C03": ("2-safety theorem on the model (step equal for dontcare-equivalent groups); on the implementation twin instances fed dontcare-equivalent groups (hypothesis re-checked by the extracted predicate) must agree on every getter and callback for the whole continuation ; code level: rdsparser_parser_process with everything below it, translated from the sources, = the model's process (C03_code_process)", "8/C03"),
+ "C04": ("theorems: per field the callbacks of a call are exactly [one, with the new value] iff the getter result changed and a callback is registered (scalars, PS, PTYN, RT incl. A/B switch, AF per newly listed code); re-delivery of a group changes nothing and notifies nothing but clock time; obs_C04 proved of every model step; same observer on implementation traces whose samples are taken inside the real callbacks ; code level: the eight setters with their callback invocations = the model's set_scalar / add_af (C04_code_*)", "8/C04, 17.3"),
  "C05": ("partial: theorem that the model's checked array accesses never fault for any blocks/error codes/thresholds/strings; layout-level memory safety, uninitialised reads and UB are searched with ASan+UBSan builds in three configurations (and valgrind in the thorough tier), not proved", "8/C05"),
- "C06": ("theorem: each addressed cell equals cell_after (thresholds of that text, weighted level, special-character and same-data rules) + kernel-checked weight facts; observer obs_C06 on the implementation", "8/C06"),
- "C07": ("theorem: per-step monotonicity of levels under progressive correction lifted to runs; observer obs_C07 on implementation traces with progressive texts", "8/C07"),
- "C08": ("theorem: case table of the A/B protocol over the model with the last flag defined as a history function; observer obs_C08 on the implementation", "8/C08"),
- "C09": ("theorem: under the extended check each getter equals last_confirmed of its reception list (history function); observer obs_C09 and twin runs (check on/off) for texts and clock time on the implementation", "8/C09"),
- "C10": ("theorem: the AF bitmap is bitmap_of (codes received >= threshold times in 0A since reset); observer obs_C10 on sweeps over all values of block C", "8/C10"),
- "C11": ("theorem on the per-step ECC/country update + kernel-checked facts on the regenerated ECC graph (shape, reference table); observer obs_C11 on the implementation", "8/C11"),
- "C12": ("theorems: ct_init of the model satisfies the single calendar equation for every 17-bit MJD (kernel sweep over all 131074 day values) and every hour/minute/offset; rdsparser_ct_init, its getters and the 4A field extractors are translated from the C sources on every run and proved equal to the model's on everything a 4A group can carry; observer obs_C12 on the implementation's reports", "8/C12, 17.7"),
+ "C06": ("theorem: each addressed cell equals cell_after (thresholds of that text, weighted level, special-character and same-data rules) + kernel-checked weight facts; observer obs_C06 on the implementation ; code level: rdsparser_parser_update_string / rdsparser_string_update / _update_single = the model's upd_string (C06_code_*)", "8/C06"),
+ "C07": ("theorem: per-step monotonicity of levels under progressive correction lifted to runs; observer obs_C07 on implementation traces with progressive texts ; code level: read off the translated rdsparser_string_update_single (both builds): progressive mode never raises a level (C07_code_progressive_only_improves)", "8/C07"),
+ "C08": ("theorem: case table of the A/B protocol over the model with the last flag defined as a history function; observer obs_C08 on the implementation ; code level: rdsparser_group2_parse with rdsparser_string_get_available / _clear (loops as folds) = the model's group2_parse (C08_code_*)", "8/C08"),
+ "C09": ("theorem: under the extended check each getter equals last_confirmed of its reception list (history function); observer obs_C09 and twin runs (check on/off) for texts and clock time on the implementation ; code level: the seven RDSPARSER_BUFFER_UPDATE instances = the model's buffer_update (C09_code_*)", "8/C09"),
+ "C10": ("theorem: the AF bitmap is bitmap_of (codes received >= threshold times in 0A since reset); observer obs_C10 on sweeps over all values of block C ; code level: rdsparser_buffer_add_af and the AF bitmap functions = the model's (C10_code_*)", "8/C10"),
+ "C11": ("theorem on the per-step ECC/country update + kernel-checked facts on the regenerated ECC graph (shape, reference table); observer obs_C11 on the implementation ; code level: rdsparser_ecc_lookup with the tables in the source = the measured graph, rdsparser_group1_parse = the model's (C11_code_*)", "8/C11"),
+ "C12": ("theorems: ct_init of the model satisfies the single calendar equation for every 17-bit MJD (kernel sweep over all 131074 day values) and every hour/minute/offset; rdsparser_ct_init, its getters and the 4A field extractors are translated from the C sources on every run and proved equal to the model's on everything a 4A group can carry; observer obs_C12 on the implementation's reports ; code level: rdsparser_group4_parse (local struct, callback through the getters) = the model's group4_parse (C12_code_group4)", "8/C12, 17.7"),
  "C13": ("theorem: clear s = fresh state with the settings of s (state equality, hence same future); on the implementation twin runs cleared-vs-fresh with identical continuations probing every piece of hidden state", "8/C13"),
  "C14": ("theorem: acceptance iff hex_ok, effect equal to parse of decode, rejection inert; observer obs_C14 on the malformed stream and twin runs string-vs-binary (pair re-checked with extracted decode)", "8/C14"),
  "C15": ("theorems: the core state evolves independently of callbacks/user data; callbacks carry the registered id and current user data; registration / user-data calls made from inside callbacks are modelled (step_reent: conservative extension, decoding unaffected); twin runs with different observer sets and a re-entrant twin replay on the implementation", "8/C15, 17.6"),
@@ -26,7 +26,7 @@ LEVEL = {
  "C17": ("theorem: settings getters equal settings_of (history function), setters leave decoded data untouched; observer obs_C17 on key x value sweeps", "8/C17"),
  "C18": ("kernel-evaluated facts over the complete lookup graphs regenerated from the compiled library (totality, placeholders, widths, ISO/PTY reference tables, uniqueness)", "8/C18"),
  "C19": ("partial: projection theorem on the multi-instance model; on the implementation interleaved-vs-solo and two-process runs, static scan for writable static storage, ThreadSanitizer run with per-thread instances (search)", "8/C19"),
- "C20": ("partial: narrow-table facts; simulation theorem between the unicode and non-unicode instantiation on collision-free groups (state, non-text callbacks identical, text callbacks related one to one); heap on/off outside the model; each of the four builds is run against the model instance for its character width; cross-build comparison with the narrow-collision known finding", "8/C20, 17.3"),
+ "C20": ("partial: narrow-table facts; simulation theorem between the unicode and non-unicode instantiation on collision-free groups (state, non-text callbacks identical, text callbacks related one to one); heap on/off outside the model; each of the four builds is run against the model instance for its character width; cross-build comparison with the narrow-collision known finding ; code level: rdsparser_string_update_single of the non-unicode build = the model's with the narrow graph (C20_code_update_single_narrow)", "8/C20, 17.3"),
 }
 NOT_YET = {}
 
@@ -44,8 +44,8 @@ def main():
             "replay_cmd_template": "python3 tools/check.py --replay {path}",
             "engine": "coq-model+correspondence",
             "level_claimed": {"category": "proof", "text": text, "design_ref": "DESIGN.md section " + ref},
-            "level_note": "Coq 8.16.1 kernel (vm_compute used, native_compute not), no axioms; trusted: gen_dump.c + gcc (Gen.v = graph of compiled tables), tools/cleaf.py + clang front end (GenLeaf.v), hand-written model for the control flow tied by running extracted model (ExtrOcamlBasic only) and implementation on the same scripts, OCaml driver, C harness, generators; the theorem is about the model and reaches the code only through that tie",
-            "technique": "machine-checked proof in Coq over a Gallina model of the API (every boolean observer the check evaluates is itself a theorem of the model for every script); tie = tables regenerated from the compiled library (Gen.v) + 30 leaf functions translated from clang's typed AST on every run and proved equal to the model's (GenLeaf.v) + model/implementation correspondence on generated scripts + extracted observers evaluated on implementation traces",
+            "level_note": "Coq 8.16.1 kernel (vm_compute used, native_compute not), no axioms; trusted: gen_dump.c + gcc (Gen.v = graph of compiled tables), tools/cleaf.py and tools/cmid.py + clang front end (GenLeaf.v, GenMid.v; the memory model of cmid.py: members of one struct never alias, string accessors recognised by name, callbacks as events), hand-written model tied by running extracted model (ExtrOcamlBasic only) and implementation on the same scripts, OCaml driver, C harness, generators; the theorem is about the model and reaches the code only through that tie",
+            "technique": "machine-checked proof in Coq over a Gallina model of the API (every boolean observer the check evaluates is itself a theorem of the model for every script); tie = tables regenerated from the compiled library (Gen.v) + 30 leaf functions translated from clang's typed AST on every run and proved equal to the model's (GenLeaf.v) + 32 middle-layer functions up to rdsparser_parser_process translated the same way and proved equal to the model's process on the pinned tree (GenMid.v, Properties_Mid_Cxx.v: a second tie; when a change to the sources defeats it the check records that and doubles its search for a failing input) + model/implementation correspondence on generated scripts + extracted observers evaluated on implementation traces",
         })
     man = {
         "version": 1,
